@@ -92,6 +92,34 @@ pub fn check_packet(p: &RefPacket, case: &dyn Fn() -> Value, all_caps: bool) -> 
             }
             Ok(Ok(b)) => b,
         };
+        // the same call again and again gives the same bytes; two messages written back to back
+        // into one writer are two copies of those bytes
+        {
+            let again = guarded(|| {
+                let mut all_same = true;
+                for _ in 0..3 {
+                    let b = if compressed { lib.build_bytes_vec_compressed() } else { lib.build_bytes_vec() };
+                    all_same &= b.as_ref().ok() == Some(&exp);
+                }
+                let mut cur = Cursor::new(Vec::new());
+                let r1 = write_mode(&lib, compressed, &mut cur);
+                let r2 = write_mode(&lib, compressed, &mut cur);
+                let r3 = write_mode(&lib, compressed, &mut cur);
+                (all_same, r1.is_ok() && r2.is_ok() && r3.is_ok(), cur.into_inner())
+            });
+            match again {
+                Err(pn) => out.push(finding(format!("C04|{}|repeat|{}", mode, pn.sig()), format!("{:?}", pn), case())),
+                Ok((same, ok, v)) => {
+                    if !same {
+                        out.push(finding(format!("C04|{}|repeat|bytes-change", mode), "calling the vector-returning function again gives other bytes".to_string(), case()));
+                    }
+                    let n = exp.len();
+                    if !ok || v.len() != 3 * n || v[..n] != exp[..] || v[n..2 * n] != exp[..] || v[2 * n..] != exp[..] {
+                        out.push(finding(format!("C04|{}|repeat|back-to-back", mode), format!("three messages written back to back into one cursor: ok={}, {} bytes for 3 x {}, copies equal to the vector-returning call: {} {} {}", ok, v.len(), n, v.len() >= n && v[..n] == exp[..], v.len() >= 2 * n && v[n..2 * n] == exp[..], v.len() >= 3 * n && v[2 * n..3 * n] == exp[..]), case()));
+                    }
+                }
+            }
+        }
         // (a) framing, judged by the reference decoder
         match decode_packet(&exp) {
             Err(e) => {
